@@ -13,7 +13,7 @@ use uom::si::length::meter;
 pub fn def() -> PropDef {
     PropDef {
         id: "C16",
-        rule: "inputs: helices with centre within +-3 m, radius 0.03-5 m, any phase, pitch 0 / +-subnormal / +-1e-17..1e2 m (one class per decade, equal weight), and points (a) anywhere in the drift volume, (b) within 1 cm of the helix with the z offset scaled by min(|h|,1) so that tiny pitches still give interior parameters, (c) bit-exactly on the helix axis (axis on the beam line or on the x axis), up to 3 pitches from z0; direct call of the closest-point routine through the hook with the callers' tolerance and iteration limit; plus the hook-free variants: t_inner / t_outer of fitted tracks against the cluster's innermost / outermost point, and the per-track parameters of a primary vertex against the vertex position (fitted tracks; hook-built sets of 2-6 tracks through or within 2 cm of a common point 0-30 cm off the beam axis, each circle also passing within 7 cm of the axis; the track sets of C14); oracle: t is not NaN and in [-pi, pi]; if strictly inside, dist(point, at(t)) <= min over s in [-pi, pi] of dist(point, at(s)) + 1e-9 m, the minimum found by a 20001-point grid with golden-section refinement around the best cells and both end points (at = the library's Track::at, so only the choice of t is judged); non-trivial = t strictly inside (-pi, pi); distinct by (pitch decade, case hash)",
+        rule: "inputs: helices with centre within +-3 m, radius 0.03-5 m, any phase, pitch 0 / +-subnormal / +-1e-17..1e2 m (one class per decade, equal weight), and points (a) anywhere in the drift volume, (b) within 1 cm of the helix with the z offset scaled by min(|h|,1) so that tiny pitches still give interior parameters, (c) bit-exactly on the helix axis (axis on the beam line or on the x axis), up to 3 pitches from z0; direct call of the closest-point routine through the hook with the callers' tolerance and iteration limit; plus t_inner / t_outer of fitted tracks against the cluster's innermost / outermost point (hook-free on clustered helices; and one group of every point family fitted through the Cluster hook, in given or reversed order, optionally with a stray hit at the inner or outer end shifted by up to 150 mrad and 3 cm; only point sets that are connected under the 3 cm linkage, as every Cluster of the library is), and the per-track parameters of a primary vertex against the vertex position (fitted tracks; hook-built sets of 2-6 tracks through or within 2 cm of a common point 0-30 cm off the beam axis, each circle also passing within 7 cm of the axis; the track sets of C14); oracle: t is not NaN and in [-pi, pi]; if strictly inside, dist(point, at(t)) <= min over s in [-pi, pi] of dist(point, at(s)) + 1e-9 m, the minimum found by a 20001-point grid with golden-section refinement around the best cells and both end points (at = the library's Track::at, so only the choice of t is judged; both distances are exact only to a few ulps of the helix's largest parameter, so 16 eps x that size is added to the 1e-9 m - 3.6e-14 m for a 10 m helix, decisive only for the 1e14 m helices that fit straight chords); non-trivial = t strictly inside (-pi, pi); distinct by (pitch decade, case hash)",
         assumptions: &["closest_t is reached through reconstruction::verif_hooks::closest_t (same tolerance f64::EPSILON and 20 iterations as every caller)"],
         run,
         replay,
@@ -64,7 +64,15 @@ pub fn judge(t: &Track, p: (f64, f64, f64), tt: f64, what: &str) -> Result<bool,
     if tt > -PI && tt < PI {
         let d = dist(t, tt, p);
         let (m, s) = brute_min(t, p);
-        ensure!(d <= m + 1e-9, "closest-t-not-minimal", "{what}: t = {tt} is at {d:.12} m, but s = {s} is at {m:.12} m ({:.3e} m closer); helix {:?}, point {p:?}", d - m, rh::helix_params(t));
+        // both distances come from the library's own `at`, whose f64 result is
+        // only exact to a few ulps of the helix's size: for the helices of the
+        // generators (size <= 10 m) that is 2e-14 m and irrelevant next to 1e-9 m;
+        // a straight chord, however, is fitted by a helix of radius 1e14 m, on
+        // which neighbouring representable positions are 1.6 cm apart
+        let hp = rh::helix_params(t);
+        let size = hp.iter().fold(0.0f64, |a, v| a.max(v.abs()));
+        let resolution = 16.0 * f64::EPSILON * size;
+        ensure!(d <= m + 1e-9 + resolution, "closest-t-not-minimal", "{what}: t = {tt} is at {d:.12} m, but s = {s} is at {m:.12} m ({:.3e} m closer); helix {:?}, point {p:?}", d - m, rh::helix_params(t));
         return Ok(true);
     }
     Ok(false)
@@ -354,6 +362,104 @@ fn track_sets(c: &super::c14::TrackSet, ev: &mut Ev) -> Outcome {
     judge_primary(c.build(), ev, fingerprint(&format!("{c:?}")))
 }
 
+
+// ------------------------------------------------------------------ end points of directly fitted groups
+
+/// One group of any family fitted through the Cluster hook, optionally with its
+/// innermost or outermost point pushed off the track (a stray hit at an end).
+#[derive(Clone, Debug, Serialize, Deserialize)]
+pub struct EndCase {
+    pub group: Group,
+    /// (outer end?, azimuth shift in mrad, z shift in mm)
+    pub stray: Option<(bool, i16, i16)>,
+    pub reverse: bool,
+}
+
+fn end_points(c: &EndCase, ev: &mut Ev) -> Outcome {
+    ev.eval();
+    let mut pts = points_of(&c.group);
+    if pts.len() < 13 {
+        return Ok(());
+    }
+    if let Some((outer, dphi, dz)) = c.stray {
+        let key = |p: &alpha_g_physics::SpacePoint| p.r.get::<meter>();
+        let idx = if outer {
+            (0..pts.len()).max_by(|&a, &b| key(&pts[a]).partial_cmp(&key(&pts[b])).unwrap()).unwrap()
+        } else {
+            (0..pts.len()).min_by(|&a, &b| key(&pts[a]).partial_cmp(&key(&pts[b])).unwrap()).unwrap()
+        };
+        let p = pts[idx];
+        pts[idx] = sp(p.r.get::<meter>(), p.phi.get::<uom::si::angle::radian>() + dphi as f64 * 1e-3, p.z.get::<meter>() + dz as f64 * 1e-3);
+        ev.label("stray-hit-at-an-end");
+    }
+    if c.reverse {
+        pts.reverse();
+    }
+    // a Cluster handed out by the library is connected under the 3 cm linkage
+    // (C15); only such point sets are legitimate inputs of the fit
+    if !connected_3cm(&pts) {
+        ev.label("skipped:not-a-connected-cluster");
+        return Ok(());
+    }
+    let all = pts.clone();
+    let Ok(t) = no_panic("Track::try_from(cluster)", || Track::try_from(rh::cluster_from_points(pts)))? else {
+        ev.label("fit:NoInitialParameters");
+        return Ok(());
+    };
+    let rmin = all.iter().map(|p| p.r.get::<meter>()).fold(f64::INFINITY, f64::min);
+    let rmax = all.iter().map(|p| p.r.get::<meter>()).fold(f64::NEG_INFINITY, f64::max);
+    for (tt, r, what) in [(t.t_inner(), rmin, "t_inner"), (t.t_outer(), rmax, "t_outer")] {
+        // ties in r: any of the tied points is an acceptable end point
+        let mut last = None;
+        let mut ok = false;
+        for p in all.iter().filter(|p| p.r.get::<meter>() == r) {
+            match judge(&t, xyz(p), tt, what) {
+                Ok(interior) => {
+                    ok = true;
+                    if interior {
+                        ev.nontrivial(fingerprint(&(what, format!("{c:?}"))));
+                        ev.label(&format!("{what}:interior"));
+                    }
+                    break;
+                }
+                Err(f) => last = Some(f),
+            }
+        }
+        if !ok {
+            return Err(last.unwrap());
+        }
+    }
+    let fam: String = format!("{:?}", c.group.family).chars().take_while(|c| c.is_alphanumeric()).collect();
+    ev.label(&format!("family:{fam}"));
+    Ok(())
+}
+
+fn connected_3cm(points: &[alpha_g_physics::SpacePoint]) -> bool {
+    let n = points.len();
+    let mut seen = vec![false; n];
+    let mut stack = vec![0usize];
+    seen[0] = true;
+    let mut count = 1;
+    while let Some(i) = stack.pop() {
+        for j in 0..n {
+            if !seen[j] && points[i].distance(points[j]).get::<meter>() <= 0.03 {
+                seen[j] = true;
+                count += 1;
+                stack.push(j);
+            }
+        }
+    }
+    count == n
+}
+
+fn end_case() -> impl Strategy<Value = EndCase> {
+    let g = prop_oneof![3 => group(60), 3 => helix_only().prop_map(|c| c.groups[0].clone())].prop_map(|mut g| {
+        g.n = g.n.max(13);
+        g
+    });
+    (g, proptest::option::weighted(0.4, (any::<bool>(), prop_oneof![-150i16..=150, Just(0i16)], -30i16..=30)), any::<bool>()).prop_map(|(group, stray, reverse)| EndCase { group, stray, reverse })
+}
+
 fn helix_only() -> impl Strategy<Value = PointsCase> {
     (proptest::collection::vec((1u8..=4, 0u16..800, 20u16..=60, any::<u64>()), 1..=4)).prop_map(|v| PointsCase {
         groups: v.into_iter().map(|(spacing_mm, noise_um, n, seed)| Group { family: Family::Helix { spacing_mm, noise_um }, n, seed, flat: 0 }).collect(),
@@ -366,6 +472,8 @@ fn run(r: &Run) {
     r.prop("closest_t_direct", t.pick(40_000, 2_000_000), direct_case, direct);
     r.prop("closest_t_kepler_coordinates", t.pick(60_000, 3_000_000), kepler_case, kepler);
     r.prop("fitted_tracks_and_vertices", t.pick(400, 20_000), helix_only, fitted);
+    r.prop("fitted_tracks_any_family", t.pick(1_500, 60_000), || points_case(300), fitted);
+    r.prop("end_points_of_fitted_groups", t.pick(3_000, 150_000), end_case, end_points);
     r.prop("vertex_parameters_crossing_tracks", t.pick(3_000, 150_000), crossing_case, crossing);
     r.prop("vertex_parameters_track_sets", t.pick(1_500, 75_000), super::c14::track_set, track_sets);
 }
@@ -373,9 +481,10 @@ fn run(r: &Run) {
 fn replay(_r: &Run, check: &str, case: &Value) -> Option<Outcome> {
     Some(match check {
         "closest_t_direct" => replay_case(case, direct),
-        "fitted_tracks_and_vertices" => replay_case(case, fitted),
+        "fitted_tracks_and_vertices" | "fitted_tracks_any_family" => replay_case(case, fitted),
         "closest_t_kepler_coordinates" => replay_case(case, kepler),
         "vertex_parameters_crossing_tracks" => replay_case(case, crossing),
+        "end_points_of_fitted_groups" => replay_case(case, end_points),
         "vertex_parameters_track_sets" => replay_case(case, track_sets),
         _ => return None,
     })
